@@ -23,6 +23,14 @@ claim("C01", "exploration",
       "(one per transfer with receive-once off) with byte-exact content and metadata, no failed writer, nothing else delivered; objects the wire format cannot carry must be refused. "
       "A hang is a violation (watchdog). Open findings are excluded by signature (counted) and pinned.",
       "DESIGN.md section 4 C01")
+claim("C04", "exploration",
+      "exhaustive enumeration of all datagrams of <=3 bytes and of all single-byte header substitutions over a corpus of valid sessions, plus proptest-generated mutation sequences (field-aware edits through an independent codec, foreign FDT instances); oracle inside the target: no panic/overflow, watchdog, per-thread heap bound, usability probe",
+      "Every byte string of length <=3 (16.8 M) and every single-byte substitution in the header region of every packet of a corpus of valid sessions (all schemes, signalling modes, cenc, shapes) "
+      "are pushed into fresh receivers (exhaustive on those finite sets); seeded sequences of 1-4 mutations add truncation/extension/splicing/reordering, field-aware edits of every LCT/FTI/FDT/CENC/TIME/"
+      "payload-id field and foreign FDT XML with hostile attribute values. Each run must return from every call without panic or overflow (flute built with overflow checks + debug assertions), stay inside a "
+      "heap bound derived from the configured cache limit, and leave the receiver usable (a valid session on an unused TSI - and on the same TSI when everything was rejected - is delivered). "
+      "Hangs are violations (watchdog). Exploration: absence is not proved.",
+      "DESIGN.md section 4 C04")
 claim("C06", "exploration",
       "exhaustive product of field-width classes + proptest boundary values; differential against an independent RFC codec in both directions (flute builds / reference decodes, reference builds / flute parses) plus flute round-trip",
       "All 9600 combinations of CCI/TSI/TOI width class x close flag x scheme x extension subset are enumerated with 4 boundary value sets each (exhaustive over classes, sampled inside a class); "
